@@ -161,8 +161,9 @@ def describe_error(e, table):
         if hasattr(e, attr) and isinstance(getattr(e, attr), str):
             what = getattr(e, attr)
             break
+    params = sorted(str(x) for x in getattr(e, "parameters", ())) if not isinstance(getattr(e, "parameters", None), str) else [getattr(e, "parameters")]
     return {"ok": False, "cls": cls, "mp": bool(mp), "syn": bool(syn), "at": at, "what": what, "lineno": lineno if isinstance(lineno, int) else -1,
-            "cause": cause}
+            "cause": cause, "params": params}
 
 
 def make_fixture(wd, netcdf):
@@ -199,7 +200,7 @@ def run_one(job):
     with contextlib.redirect_stdout(out):
         try:
             p = Program.from_source(src, libraries=_W["libs"], working_dir=wd)
-            ev.append({"ev": "load", "ok": True, "cls": "", "mp": True, "syn": False, "at": [0, ""], "what": ""})
+            ev.append({"ev": "load", "ok": True, "cls": "", "mp": True, "syn": False, "at": [0, ""], "what": "", "params": []})
         except BaseException as e:
             p = None
             d = describe_error(e, table)
@@ -209,7 +210,7 @@ def run_one(job):
             tracer.install()
             try:
                 p.run()
-                res = {"ok": True, "cls": "", "mp": True, "syn": False, "at": [0, ""], "what": ""}
+                res = {"ok": True, "cls": "", "mp": True, "syn": False, "at": [0, ""], "what": "", "params": []}
             except BaseException as e:
                 res = describe_error(e, table)
             for e in tracer.EV:
@@ -387,6 +388,13 @@ RUNTIME_SCENARIOS = [
 ]
 
 
+# lines of the offending command in the run-time scenarios: an error that carries a line must carry one of these
+SCENARIO_LINES = {"mixed-shapes-1d": [3], "mixed-shapes-aminusb": [4, 5, 6], "empty-inputs": [1], "mismatched-weights": [2], "invalid-thresholds": [2],
+                  "invalid-direction": [2, 3], "invalid-number-to-consider": [3], "invalid-truest": [3], "mixed-lengths": [2], "duplicate-raw": [2],
+                  "xor-one-input": [3], "cycle": [1, 2], "write-to-missing-dir": [2], "csv-empty-file": [1], "csv-missing-column": [1], "csv-non-numeric": [1],
+                  "csv-empty-cell": [1], "csv-ragged-row": [1], "csv-header-only": [1, 2], "csv-binary-garbage": [1]}
+
+
 def cli_one(job):
     """(id, name, source, extra files, netcdf) -> MPCliTrace record"""
     jid, name, src, extra, netcdf = job
@@ -449,7 +457,8 @@ def cli_one(job):
     norm = lambda t: re.sub(r"0x[0-9a-f]+", "0x", t)
     first = norm(msg.split("\n")[0]) if msg else ""
     stderr_n = norm(stderr)
-    return {"id": jid, "name": name, "outcome": outcome, "cls": cls, "lineno": lineno or 0, "nlines": len(src_lines), "exit": code & 0xFF,
+    lineok = not (lineno and name in SCENARIO_LINES and lineno not in SCENARIO_LINES[name])
+    return {"id": jid, "name": name, "outcome": outcome, "cls": cls, "lineno": lineno or 0, "lineok": bool(lineok), "nlines": len(src_lines), "exit": code & 0xFF,
             "banner": "ERROR: There was a problem running the MPilot command file." in stderr, "message": bool(first) and first in stderr_n,
             "arrow": arrow, "arrowtext": arrowtext, "traceback": tb, "stderr": stderr[:600], "source": src, "api_message": msg[:300]}
 
@@ -463,7 +472,7 @@ def run_cli(chk, prop, jobs, libs, prefixes):
     with open(cfg, "w") as f:
         f.write("INIT Init\nNEXT Next\nCHECK_DEADLOCK FALSE\nINVARIANT Report\n")
     path = os.path.join(d, "cli.ndjson")
-    keys = ("id", "outcome", "lineno", "nlines", "exit", "banner", "message", "arrow", "arrowtext", "traceback")
+    keys = ("id", "outcome", "lineno", "lineok", "nlines", "exit", "banner", "message", "arrow", "arrowtext", "traceback")
     with open(path, "w") as f:
         for r in recs:
             f.write(json.dumps({k: r[k] for k in keys}) + "\n")
